@@ -5,6 +5,53 @@ the item loop of slice assignment. -/
 namespace CffiVerif.Index
 open CffiVerif.Mem
 
+/-! ### meaning of the definitions regenerated from the C source (Generated/IndexExprs.lean)
+
+Each lemma states what the model's theorems need of one extracted expression; when the C
+source changes an expression, its lemma stops checking. -/
+
+theorem gen_mulWraparound (x y : Int) : G.mulWraparound x y = wrapS (x * y) := rfl
+theorem gen_ownPtrIndexRejected (i : Int) : G.ownPtrIndexRejected i ↔ i ≠ 0 := Iff.rfl
+theorem gen_ptrIsNull (a : Nat) : G.ptrIsNull (a : Int) ↔ a = 0 := by
+  unfold Generated.IndexExprs.ptrIsNull; omega
+theorem gen_arrayIndexNegative (i : Int) : G.arrayIndexNegative i ↔ i < 0 := Iff.rfl
+theorem gen_arrayIndexTooLarge (i n : Int) : G.arrayIndexTooLarge i n ↔ i ≥ n := Iff.rfl
+theorem gen_itemAddr (a i s : Int) : G.itemAddr a i s = a + i * s := rfl
+theorem gen_sliceStartAfterStop (s e : Int) : G.sliceStartAfterStop s e ↔ s > e := Iff.rfl
+theorem gen_sliceStartNegative (s : Int) : G.sliceStartNegative s ↔ s < 0 := Iff.rfl
+theorem gen_sliceStopTooLarge (e n : Int) : G.sliceStopTooLarge e n ↔ e > n := Iff.rfl
+theorem gen_sliceBound0 (s e : Int) : G.sliceBound0 s e = s := rfl
+theorem gen_sliceBound1 (s e : Int) : G.sliceBound1 s e = e - s := rfl
+theorem gen_sliceAddr (a z s : Int) : G.sliceAddr a z s = a + z * s := rfl
+theorem gen_sliceLength (l : Int) : G.sliceLength l = l := rfl
+theorem gen_assSliceAddr (a z s : Int) : G.assSliceAddr a z s = a + z * s := rfl
+theorem gen_assSliceLength (l : Int) : G.assSliceLength l = l := rfl
+theorem gen_assSliceMoveBytes (z l : Int) : G.assSliceMoveBytes z l = z * l := rfl
+theorem gen_assSliceBytesLenMismatch (a l : Int) : G.assSliceBytesLenMismatch a l ↔ a ≠ l := Iff.rfl
+theorem gen_addScaled (i sign : Int) : G.addScaled i sign = i * sign := rfl
+theorem gen_addItemSizeUnknown (z : Int) : G.addItemSizeUnknown z ↔ z < 0 := Iff.rfl
+theorem gen_addVoidItemSize (z : Int) : G.addVoidItemSize z = 1 := rfl
+theorem gen_addAddr (a i z : Int) : G.addAddr a i z = a + i * z := rfl
+theorem gen_subItemSizeNotPositive (z : Int) : G.subItemSizeNotPositive z ↔ z ≤ 0 := Iff.rfl
+theorem gen_subByteDiff (v w : Int) : G.subByteDiff v w = v - w := rfl
+theorem gen_subNeedsDivision (z : Int) : G.subNeedsDivision z ↔ z > 1 := Iff.rfl
+theorem gen_subNotMultiple (d z : Int) : G.subNotMultiple d z ↔ d.tmod z ≠ 0 := Iff.rfl
+theorem gen_subItemDiff (d z : Int) : G.subItemDiff d z = d.tdiv z := rfl
+theorem gen_offsetofItemSizeUnknown (z : Int) : G.offsetofItemSizeUnknown z ↔ z < 0 := Iff.rfl
+theorem gen_offsetofOffset (i z : Int) : G.offsetofOffset i z = wrapS (i * z) := rfl
+theorem gen_offsetofOverflow (o i z : Int) : G.offsetofOverflow o i z ↔ (z ≠ 0 ∧ o.tdiv z ≠ i) := Iff.rfl
+
+/-- Rewrites every generated definition into its meaning. -/
+syntax "gen_norm" (Lean.Parser.Tactic.location)? : tactic
+macro_rules
+  | `(tactic| gen_norm $[$loc]?) => `(tactic| simp only [gen_mulWraparound, gen_ownPtrIndexRejected, gen_ptrIsNull,
+      gen_arrayIndexNegative, gen_arrayIndexTooLarge, gen_itemAddr, gen_sliceStartAfterStop, gen_sliceStartNegative,
+      gen_sliceStopTooLarge, gen_sliceBound0, gen_sliceBound1, gen_sliceAddr, gen_sliceLength, gen_assSliceAddr,
+      gen_assSliceLength, gen_assSliceMoveBytes, gen_assSliceBytesLenMismatch, gen_addScaled, gen_addItemSizeUnknown,
+      gen_addVoidItemSize, gen_addAddr, gen_subItemSizeNotPositive, gen_subByteDiff, gen_subNeedsDivision,
+      gen_subNotMultiple, gen_subItemDiff, gen_offsetofItemSizeUnknown, gen_offsetofOffset, gen_offsetofOverflow]
+      $[$loc]?)
+
 /-- fits + wrapS identity -/
 theorem wrapS_of_fits (x : Int) (h : fitsSsize x) : wrapS x = x := by
   unfold wrapS two64 ssizeMax
@@ -60,6 +107,7 @@ theorem mulwrap_check (i s : Int) (hs : s > 0) (hs2 : fitsSsize s) :
 theorem index_addr (cd : CData) (key : PyArg) (a : Nat) (h : indexedPtr cd key = .ok a) :
     ∃ i, key = .int i ∧ fitsSsize i ∧ a = wrapU (cd.addr + i * cd.isize) := by
   unfold indexedPtr at h
+  gen_norm at h
   split at h
   · cases h
   · cases h
@@ -85,6 +133,7 @@ theorem index_addr (cd : CData) (key : PyArg) (a : Nat) (h : indexedPtr cd key =
 theorem indexedPtr_array_ok (cd : CData) (n : Nat) (hk : cd.kind = .array n) (hn : (n : Int) ≤ ssizeMax)
     (i : Int) (h : 0 ≤ i ∧ i < n) : indexedPtr cd (.int i) = .ok (wrapU (cd.addr + i * cd.isize)) := by
   unfold indexedPtr
+  gen_norm
   simp only [hk]
   unfold fitsSsize ssizeMin ssizeMax at *
   have f : ¬ ¬ (-9223372036854775808 ≤ i ∧ i ≤ 9223372036854775807) := by omega
@@ -96,6 +145,7 @@ theorem slice_ok_value (cd : CData) (n : Nat) (hk : cd.kind = .array n) (hn : (n
     (i j : Int) (h : 0 ≤ i ∧ i ≤ j ∧ j ≤ n) :
     sliceArg cd (.int i) (.int j) .none = .ok (i, j - i) := by
   unfold sliceArg ssizeArg
+  gen_norm
   simp only [hk]
   unfold fitsSsize ssizeMin ssizeMax at *
   have f1 : (-9223372036854775808 ≤ i ∧ i ≤ 9223372036854775807) := by omega
